@@ -114,9 +114,12 @@ def run_case(ctx, tool, params, files, damage, extra=()):
         dk.append(k); dm.append(m); dp.append(p); df.append(0 if r is None else 1)
         drm.append(b'' if r is None else r[0]); drp.append(b'' if r is None else r[1])
     ints = lambda l: ','.join(str(x) for x in l) if l else '.'
-    line = 'toolrun %d 3 %d %d %d %d %d %d %d %d %d %s %s %s %s %s %s %s %s %s %s %s' % (
+    er = 256
+    if '--enable_erasures' in extra:
+        er = int(opt(list(extra), '--erasure_symbol', 0))
+    line = 'toolrun %d 3 %d %d %d %d %d %d %d %d %d %d %s %s %s %s %s %s %s %s %s %s %s' % (
         0 if tool == 'header' else 1, mb, hdr, ms, ik, mb - ik, hlen, 0 if '--no_fast_check' in extra else 1,
-        1 if '--ignore_size' in extra else 0, WINDOW, hx(db), hxl(tpairs), hxl(htab), ints(dk), hxl(dm), hxl(dp), ints(df), hxl(drm), hxl(drp),
+        1 if '--ignore_size' in extra else 0, WINDOW, er, hx(db), hxl(tpairs), hxl(htab), ints(dk), hxl(dm), hxl(dp), ints(df), hxl(drm), hxl(drp),
         ints(musz), ';'.join(','.join(str(x) for x in t) or '1' for t in mutb) or '.')
     ans = ctx.model.run([line])[0]
     if ans.startswith('ERR'):
@@ -162,7 +165,8 @@ def scenarios(rng, tier):
             for pi, params in enumerate(psets[tool]):
                 files = {'a.bin': rb(rng.choice([333, 700])), 'sub/b.txt': rb(rng.choice([1, 90, 150])), 'sub/deep/c\xe9.dat': rb(200), 'e': b''}
                 seed = rng.randrange(1 << 30)
-                for kind in ('none', 'light', 'light-nofast', 'heavy', 'one-heavy', 'track', 'missing', 'truncated', 'truncated-ignore', 'grown-ignore'):
+                for kind in ('none', 'light', 'light-nofast', 'heavy', 'one-heavy', 'track', 'missing', 'truncated', 'truncated-ignore', 'grown-ignore',
+                             'zeroed-erasures', 'ff-erasures255', 'none-erasures'):
                     if tier == 'quick' and (pi + len(kind)) % 2 and kind not in ('none', 'light', 'heavy'):
                         continue
                     out.append({'tool': tool, 'params': params, 'files': {k: v.hex() for k, v in files.items()}, 'kind': kind, 'dseed': seed})
@@ -200,6 +204,16 @@ def damage_fn(case):
                         i = r.randrange(e0['track'], e0['e'])
                         d[i] = r.choice([x for x in range(1, 250) if x != d[i]])
             open(eccpath, 'wb').write(bytes(d)); flip(a, [5])
+        elif kind in ('zeroed-erasures', 'ff-erasures255'):
+            # a burst overwritten with the erasure symbol (more than the errors-only capacity, within the erasure capacity) + one wrong byte
+            sym = 0 if kind == 'zeroed-erasures' else 255
+            d = bytearray(open(a, 'rb').read())
+            st = r.randrange(0, 40)
+            for i in range(st, min(len(d), st + 8)):
+                d[i] = sym
+            if len(d) > 100:
+                d[100] ^= 0x21
+            open(a, 'wb').write(bytes(d))
         elif kind == 'missing':
             os.remove(b)
         elif kind in ('truncated', 'truncated-ignore'):
@@ -215,6 +229,10 @@ def extra_of(case):
         ex.append('--no_fast_check')
     if case['kind'].endswith('-ignore'):
         ex.append('--ignore_size')
+    if case['kind'] in ('zeroed-erasures', 'none-erasures'):
+        ex.append('--enable_erasures')
+    if case['kind'] == 'ff-erasures255':
+        ex += ['--enable_erasures', '--erasure_symbol', '255']
     return ex
 
 
